@@ -9,6 +9,7 @@
 //   blob <K> <kind> <hex> <skip> <n>      SetPosition(skip) then the callers' ReadByChunks loop for n bytes
 //   detect <hex>                          DetectEncoding(string_view)          -> <type> <offset>
 //   detect.stream <skipbom> <kind> <hex>  DetectEncoding(istream&, bool)       -> <type> eof fail tellg next4
+//   detect.at <skipbom> <kind> <prelen> <hex>   the same after prelen bytes of the stream have been read by the caller
 //   esr <K> <tgt> <S|T> <kind> <hex>      CEncodedStreamReader<char{,16_t,32_t},K>: ReadChunk until not Success
 //                                         -> <results> <units> <GetSourceUtfType>   |  HANG after 4*len+16 calls
 //   esrcuts <K> <tgt> <S|T> <kind> <hex> <lo> <hi>   the same on every prefix of length lo..hi-1, answers hashed
@@ -251,9 +252,11 @@ int main() {
 				const UtfType ty = DetectEncoding(std::string_view(data), off);
 				std::cout << type_name(ty) << " " << off << "\n";
 			}
-			else if (op == "detect.stream") {
-				Stream st = make_stream(t.at(2), vh::parse_hex(t.at(3)));
+			else if (op == "detect.stream" || op == "detect.at") {
+				// detect.at <skipbom> <kind> <prelen> <hex>: the caller has already consumed prelen bytes of the stream
+				Stream st = make_stream(t.at(2), vh::parse_hex(t.at(op == "detect.at" ? 4 : 3)));
 				std::istream& is = st.get();
+				if (op == "detect.at") { std::string pre(std::stoul(t.at(3)), '\0'); is.read(pre.data(), static_cast<std::streamsize>(pre.size())); }
 				const UtfType ty = DetectEncoding(is, t.at(1) == "1");
 				std::string res = type_name(ty);
 				res += is.eof() ? " e:1" : " e:0";
